@@ -31,6 +31,11 @@ CLAIMED = {
          "Generated-input search: 300k (quick) / 8M (thorough) single-table aggregate queries the columnar gate accepts; each is run with the gate on, with the gate forced off, and as a rewrite the gate rejects; results must agree, COUNT must never be NULL. A hook counter proves the fast path really produced the answer (class floor 60%).",
          "The row path is the reference (its own correctness is C07). Hook = two thread-locals in vibesql-executor behind cargo feature verif. Regions of the eight recorded columnar defects are excluded by construction in 80% of the budget.",
          "DESIGN.md §6 C03"),
+ "C05": ("exploration",
+         "metamorphic + model-based testing: rewrite families (comma-join permutations, CROSS JOIN+WHERE, INNER JOIN chains, derived-table wrapping, IN / EXISTS / JOIN DISTINCT, NOT EXISTS / LEFT JOIN IS NULL / NOT IN) each compared with a definitional nested-loop evaluation computed by the harness",
+         "Generated-input search: 250k families quick / 6M thorough over 2-3 tables with NULL and duplicate keys and empty sides, with and without an index on the inner key; every member must return the multiset of the ~60-line definitional model (NOT IN against its own 3VL definition).",
+         "Join equality = SQL equality (NULL never matches). Members with a recorded defect are still executed and counted but do not stop the case.",
+         "DESIGN.md §6 C05"),
  "C06": ("exploration",
          "metamorphic testing: ternary-logic partitioning (TLP) and NoREC over generated schemas, data and predicates",
          "Generated-input search with a metamorphic oracle that needs no expected output: Q must equal the disjoint union of Q AND p, Q AND NOT p, Q AND p IS NULL (plain, DISTINCT, JOIN ON, GROUP BY aggregates combined arithmetically, HAVING, ungrouped aggregates), and #rows WHERE p must equal #TRUE of SELECT p. 200k cases x 4 queries quick.",
@@ -51,6 +56,11 @@ CLAIMED = {
          "Generated-input search: 150k cases quick / 4M thorough; the unordered result is computed by the harness model from the table; the engine's answer must be sorted (NULLs last), be the right slice key-wise, be a sub-multiset with complete interior tie groups, with and without a usable index.",
          "NULLs-last in both directions as documented in order.rs; ties compared only through key sequences and group completeness.",
          "DESIGN.md §6 C08"),
+ "C31": ("exploration",
+         "property-based testing of the CLI copy import/export code paths (real source files compiled via #[path]): export->import round-trip and import of independently generated RFC 4180 CSV / JSON files against the harness's own readers, with a table-set / other-table safety oracle",
+         "Generated-input search: 40k cases quick / 1.2M thorough; values with commas, quotes, newlines, SQL fragments, the text NULL, empty strings and NULLs; after import the table must equal the file's records, the set of tables and all other tables must be unchanged.",
+         "CLI is a binary crate and the copy meta-command is REPL-only: the harness calls MetaCommand::parse + SqlExecutor::handle_copy exactly as repl.rs does; println!/eprintln! are captured. CSV NULL = empty field as documented in docs/CLI_GUIDE.md.",
+         "DESIGN.md §6 C31"),
  "C21": ("exploration",
          "property-based testing (proptest choice tape): algebraic laws over generated SqlValue triples + documented interval model",
          "Generated-input search: millions of SqlValue triples biased to NaN/±0/inf/extreme ints/unit-converted intervals are checked against the Eq/Ord/Hash laws and an independent interval decomposition. Laws over three values are cheap and the taught pools cover every variant pair, so exploration is the right level; it does not show absence.",
@@ -80,7 +90,7 @@ for p in props:
             "thorough_cmd": f"./check {pid} thorough",
             "evidence_file": f"/verif/evidence/{pid}.json",
             "replay_cmd_template": f"./check {pid} --replay {{path}}",
-            "engine": "chk_srv" if pid in ("C27","C28","C29") else "vcheck",
+            "engine": "chk_srv" if pid in ("C27","C28","C29") else ("chk_cli" if pid == "C31" else ("chk_store" if pid in ("C17","C22") else "vcheck")),
             "level_claimed": {"category": cat, "text": text, "design_ref": ref},
             "level_note": note,
             "technique": tech,
@@ -102,7 +112,9 @@ manifest = {
     "engines": [
         {"name": "chk_srv", "path": "harness/chk_srv", "serves_properties": ["C27","C28","C29"],
          "kind_free_text": "Rust binary on the same vcore runner; compiles the server's protocol/auth source files via #[path]"},
-        {"name": "vcheck", "path": "harness/", "serves_properties": sorted(k for k in CLAIMED.keys() if k not in ("C27","C28","C29")),
+        {"name": "chk_cli", "path": "harness/chk_cli", "serves_properties": ["C31"],
+         "kind_free_text": "Rust binary on the same vcore runner; compiles the CLI's commands/data_io/executor source files via #[path]"},
+        {"name": "vcheck", "path": "harness/", "serves_properties": sorted(k for k in CLAIMED.keys() if k not in ("C27","C28","C29","C31","C17","C22")),
          "kind_free_text": "Rust binary: proptest 1.11 TestRunner driving a choice tape -> typed case IR -> explicit oracle; shrinks to a JSON replay file; child-process isolation for totality properties"},
     ],
     "checks": checks,
